@@ -58,6 +58,7 @@ type Run struct {
 	Viol               []Violation    // violations raised by invariants during the run
 	Goroutines         [2]int         // before workload / after teardown
 	OpenOllaConnsAtEnd int
+	Deadlock           string // non-empty: goroutines stayed blocked forever after teardown
 }
 
 type FinalStats struct {
@@ -100,7 +101,10 @@ func ExecPlan(t *testing.T, p *Plan, prop Property, keepLog bool) (run *Run) {
 		if x := recover(); x != nil {
 			msg := fmt.Sprint(x)
 			if strings.Contains(msg, "deadlock") {
-				run.Err = "bubble-deadlock: " + msg
+				// the workload and all observations are complete at this point (the panic is raised when the
+				// bubble's root function returns): goroutines of the system under test are still blocked on
+				// something nobody can ever unblock, after shutdown and after every connection was closed
+				run.Deadlock = msg
 				if os.Getenv("VERIF_DEBUG_STACKS") != "" {
 					buf := make([]byte, 1<<20)
 					n := runtime.Stack(buf, true)
